@@ -365,3 +365,13 @@ class CSSMediaRule(cssrule.CSSRuleRules):
     )
 
     wellformed = property(lambda self: self.media.wellformed)
+
+    def _getValid(self):
+        """Check if each contained rule is valid."""
+        for rule in self.cssRules:
+            # Not all rules can be checked for validity
+            if hasattr(rule, 'valid') and not rule.valid:
+                return False
+        return True
+
+    valid = property(_getValid, doc='``True`` if all contained rules are valid')
